@@ -31,13 +31,13 @@ import (
 )
 
 type Scn struct {
-	C2U   int    `json:"c2u"`   // client -> upstream payload bytes
-	U2C   int    `json:"u2c"`   // each upstream -> client payload bytes
-	Peers int    `json:"peers"` // peers of the one upstream (each gets the client's stream)
-	Order string `json:"order"` // client-first | upstream-first | both | client-abort | upstream-abort
-	Half  bool   `json:"half"`  // upstream transport offers CloseWrite
-	Need  int    `json:"need"`  // bytes the matcher in front of the proxy needs (prefetched)
-	Writes int   `json:"writes"` // the client's payload is sent in this many writes
+	C2U    int    `json:"c2u"`    // client -> upstream payload bytes
+	U2C    int    `json:"u2c"`    // each upstream -> client payload bytes
+	Peers  int    `json:"peers"`  // peers of the one upstream (each gets the client's stream)
+	Order  string `json:"order"`  // client-first | upstream-first | both | client-abort | upstream-abort
+	Half   bool   `json:"half"`   // upstream transport offers CloseWrite
+	Need   int    `json:"need"`   // bytes the matcher in front of the proxy needs (prefetched)
+	Writes int    `json:"writes"` // the client's payload is sent in this many writes
 }
 
 var chunk = layer4.VerifPrefetchChunkSize()
@@ -51,27 +51,27 @@ func payload(tag byte, n int) []byte {
 }
 
 type upstreamRec struct {
-	mu       sync.Mutex
-	got      []byte
-	sawEOF   bool
-	readErr  string
-	eofAt    int64
+	mu        sync.Mutex
+	got       []byte
+	sawEOF    bool
+	readErr   string
+	eofAt     int64
 	clientEnd *vnet.Conn // the proxy's end of the upstream connection
 }
 
 type result struct {
-	out        vsched.Outcome
-	ups        []*upstreamRec
-	clientGot  []byte
-	clientEOF  bool
-	clientErr  string
-	clientEOFAt int64
-	handleDone bool
+	out          vsched.Outcome
+	ups          []*upstreamRec
+	clientGot    []byte
+	clientEOF    bool
+	clientErr    string
+	clientEOFAt  int64
+	handleDone   bool
 	handleDoneAt int64
 	clientFinAt  int64
 	upFinAt      int64
-	dials      []string
-	server     *vnet.Conn
+	dials        []string
+	server       *vnet.Conn
 	openAtReturn []string
 }
 
@@ -378,7 +378,7 @@ func main() {
 	runner.Main(&runner.Harness{
 		ID:    "C03",
 		Level: "model_checking",
-		Rule: "client->upstream and upstream->client payloads {0,1,3,chunk+1 bytes, position-coded} in 1-2 writes x who finishes first {client half-closes, upstreams half-close, both, client aborts, upstream aborts mid-stream} x 1 or 2 peers per upstream x upstream transport with/without half-close x matcher in front of the proxy needing 1 or 3 bytes (so the stream starts in the prefetch buffer); every interleaving of the handler's goroutines, client and upstream threads, every short read, within the joint deviation budget (delay bounding: every scheduling choice other than 'continue, else lowest thread id' costs one; 3 for the 3-byte/1-byte single-peer exchange of every close order and transport, 2 otherwise; +1 and a wider core in thorough)",
+		Rule:  "client->upstream and upstream->client payloads {0,1,3,chunk+1 bytes, position-coded} in 1-2 writes x who finishes first {client half-closes, upstreams half-close, both, client aborts, upstream aborts mid-stream} x 1 or 2 peers per upstream x upstream transport with/without half-close x matcher in front of the proxy needing 1 or 3 bytes (so the stream starts in the prefetch buffer); every interleaving of the handler's goroutines, client and upstream threads, every short read, within the joint deviation budget (delay bounding: every scheduling choice other than 'continue, else lowest thread id' costs one; 3 for the 3-byte/1-byte single-peer exchange of every close order and transport, 2 otherwise; +1 and a wider core in thorough)",
 		Assumptions: []string{
 			"payload sizes up to one prefetch chunk + 1, not MiB; kernel socket buffers are unbounded in the virtual network",
 			"TLS-terminated downstream is covered for byte-exactness by C01, not here",
@@ -390,6 +390,7 @@ func main() {
 			ex := explore.New(b)
 			ex.Total = tot
 			ex.Stop = rep.Expired
+			vsched.StateSink = rep.State
 			ex.Explore(func(x *explore.Exec) { check(x, sc, execute(x, sc)) })
 			rep.AddStats(sc, &ex.Stats)
 			if os.Getenv("VERIF_STATS") != "" {
